@@ -331,8 +331,14 @@ impl Metadata {
             MetadataEntry::MtreeDirs => self.mtree_dirs = Some(val_vec),
             MetadataEntry::Preserve => self.preserve = Some(val_vec),
             MetadataEntry::RequiredBy => self.required_by = Some(val_vec),
-            MetadataEntry::SizeAll => self.size_all = Some(val_i64.unwrap()),
-            MetadataEntry::SizePkg => self.size_pkg = Some(val_i64.unwrap()),
+            MetadataEntry::SizeAll => match val_i64 {
+                Ok(n) => self.size_all = Some(n),
+                Err(_) => return Err("Invalid +SIZE_ALL, not an integer"),
+            },
+            MetadataEntry::SizePkg => match val_i64 {
+                Ok(n) => self.size_pkg = Some(n),
+                Err(_) => return Err("Invalid +SIZE_PKG, not an integer"),
+            },
         }
 
         Ok(())
